@@ -282,10 +282,11 @@ Vector Spherical_Coordinates(double r, double theta, double phi, const Vector& a
 	}
 	else
 	{
-		double aux = sqrt(1.0 - pow(ev[2], 2.0));
+		// Length of the part of ev perpendicular to z, and sin(theta) >= 0 (formed without the cancellation of sqrt(1-u^2) near u=+-1)
+		double aux = sqrt(ev[0] * ev[0] + ev[1] * ev[1]);
 
 		double cos_theta = cos(theta);
-		double sin_theta = sqrt(1.0 - cos_theta * cos_theta);
+		double sin_theta = fabs(sin(theta));
 		double cos_phi	 = cos(phi);
 		double sin_phi	 = sin(phi);
 
